@@ -77,6 +77,9 @@ fn gen(t: Tier, seed: u64, emit: &mut dyn FnMut(Case)) {
     for s in 0..32 {
         emit(Case::Sequence { idx: db.clone(), s });
     }
+    for n in long_lengths(2).into_iter().chain(huge_lengths(2).into_iter().step_by(2)) {
+        emit(Case::Sequence { idx: bsv::fixture::bg(n, 4, 7, seed), s: n % 3 });
+    }
     if t.thorough() {
         for n in [31usize, 32, 33, 64, 65, 66, 97, 130] {
             pfamily(n, 4, seed, &mut |v| {
